@@ -1125,7 +1125,17 @@ func (m *Machine) timeIntrinsic(s *State, f *Frame, x *ssa.Call, name string, ar
 		// periodic background work (retention trimmers) is checked by its own harnesses: the tick never fires here
 		m.stubs["time.NewTicker: the tick never fires (periodic trimming is checked separately)"]++
 		tk := m.zero(x.Type().(*types.Pointer).Elem()).(StructV)
-		tk.f[0] = Ptr{obj: s.alloc(ChanV{cap: 1})}
+		if m.tickerFires > 0 {
+			// root option ticker_fires: the ticker fires up to k times, each at any moment
+			m.stubs[fmt.Sprintf("time.NewTicker: fires up to %d times, at any moment", m.tickerFires)]++
+			var buf []Value
+			for i := 0; i < m.tickerFires; i++ {
+				buf = append(buf, m.zero(m.timeType(x)))
+			}
+			tk.f[0] = Ptr{obj: s.alloc(ChanV{cap: m.tickerFires, timer: true, buf: buf})}
+		} else {
+			tk.f[0] = Ptr{obj: s.alloc(ChanV{cap: 1})}
+		}
 		f.env[x] = Ptr{obj: s.alloc(tk)}
 		return nil, true
 	case "(*time.Timer).Reset", "(*time.Ticker).Reset":
